@@ -473,6 +473,30 @@ def register_terms(terms, token, tmp):
     return urls
 
 
+def nested_terms(terms):
+    """Does a terminology FILE of the case include another terminology of the case?"""
+    def inc(secs):
+        return any((s.get("include") or {}).get("key") is not None or inc(s.get("subs", [])) for s in secs)
+    return any(t.get("kind") == "file" and inc(t.get("secs", [])) for t in terms or [])
+
+
+def settle(base_threads):
+    """Waits for the loader threads the case has started so far.
+
+    (round 5 follow-up)  Only used by histories with NESTED terminology files.  There the unchanged library
+    has a race that made the verdict depend on the scheduler (found by the thorough tier under load, see
+    design.d/C19.md and corpus/C19/race_concurrent_load_of_one_terminology.py): terminology.load(X) called
+    in the main thread runs unregistered, so the loader thread of a file that includes X starts a second,
+    concurrent load of X, which can read the half written cache copy of the first and enter None into the
+    table for good.  Whether that happens must not decide a verdict: such histories let the loader threads
+    finish after every step that can start one (a well-defined schedule: at most one load of a URL at a
+    time).  All other histories keep their loader threads in flight as before."""
+    import threading
+    for thread in threading.enumerate():
+        if thread not in base_threads and thread is not threading.current_thread():
+            thread.join(300)
+
+
 def unregister_terms(before_threads=()):
     """Takes the case's terminologies out of the library's table again, waits for the loader threads
     the case has started and removes the copies the loader has cached."""
@@ -731,6 +755,37 @@ def build_doc(spec, inc_url="file:///nonexistent/c19inc.xml", tmp=None):
 
 def has_include(doc):
     return any(s.include is not None for s in doc.itersections(recursive=True))
+
+
+def rdf_safe(doc):
+    """The RDF writer resolves the links and includes of the document it is given (Document.finalize).
+    Includes would fetch; and (round 5, found by the thorough tier) a link to the own ancestor or into a
+    subtree that holds a link sends finalize into an unbounded recursion of merges - on the unchanged
+    library, whatever is validated: the business of the link properties.  Histories can build such
+    documents (clones appended below their link target); those are not handed to the RDF writer."""
+    if has_include(doc):
+        return False
+    try:
+        for sec in doc.itersections(recursive=True):
+            if sec.link is None:
+                continue
+            try:
+                target = sec.get_section_by_path(sec.link)
+            except Exception:
+                continue
+            node = sec
+            while node is not None:
+                if node is target:
+                    return False
+                node = getattr(node, "parent", None)
+            if not hasattr(target, "itersections"):
+                continue
+            if getattr(target, "link", None) is not None \
+                    or any(sub.link is not None for sub in target.itersections(recursive=True)):
+                return False
+    except Exception:
+        return False
+    return True
 
 
 def gen_links(rng, doc, ids, n):
@@ -1160,6 +1215,170 @@ def gen_loader_case(rng):
     return {"stream": "loader", "token": rng.randrange(10 ** 9), "files": files, "ops": ops}
 
 
+RACE_TERM = {"kind": "file", "secs": [{"name": "T1", "type": "recording", "props": ["Duration"], "subs": []}]}
+
+
+def gen_race_cases(rng):
+    """(round 5 follow-up, oracle-only)  Two loads of ONE url at the same time, on a forced schedule: the
+    first load (terminology.load, or the first validation of a document that got its repository as a
+    constructor argument; for templates TemplateHandler.load) is stopped while it writes its cache copy -
+    `created`: right after the file it writes has been opened for writing (exists, empty);
+    `before_replace`: right before os.replace moves a finished copy into place - and a second load of the
+    same url runs to its end meanwhile: deferred_load (what a repository setter starts), the repository
+    setter of another document, the loader thread of another terminology file that includes the url, or
+    (templates) a second load from another thread.  Fixed by 7dfcfe5 (known finding
+    terminology-cache-copy-read-while-written)."""
+    out = []
+    for stop in ("created", "before_replace"):
+        for first in ("load", "validation"):
+            for second in ("deferred", "setter", "include"):
+                out.append({"stream": "race", "handler": "terminology", "first": first, "second": second,
+                            "stop": stop, "token": rng.randrange(10 ** 9)})
+        for second in ("load", "deferred"):
+            out.append({"stream": "race", "handler": "templates", "first": "load", "second": second,
+                        "stop": stop, "token": rng.randrange(10 ** 9)})
+    return out
+
+
+def run_race(case, tmp, guard=30):
+    """-> observation; obs["skipped"] when the schedule could not be forced (the library does not write its
+    copy through `open` / `os.replace` of its module namespace any more, or the second load cannot finish
+    while the first is held): such a case says nothing.  No sleeps: two events, `guard` seconds at most."""
+    import threading
+    import odml
+    from odml import validation
+    mod = __import__("odml.terminology" if case["handler"] == "terminology" else "odml.templates",
+                     fromlist=["x"])
+    terms = [dict(RACE_TERM, key="a")]
+    if case["second"] == "include":
+        terms.append({"key": "b", "kind": "file",
+                      "secs": [{"name": "T1", "type": "subject", "props": [], "subs": []},
+                               {"name": "L1", "type": "stimulus", "props": ["a"], "subs": [],
+                                "include": {"key": "a", "path": "/T1"}}]})
+    urls = register_terms(terms, case["token"], tmp)
+    url = urls["a"]
+    handler = mod.terminologies if case["handler"] == "terminology" else mod.TemplateHandler()
+    opened, go = threading.Event(), threading.Event()
+    main = threading.current_thread()
+    state = {"hits": 0, "second_done": False, "second": None}
+    real_open = open
+
+    def hold():
+        if threading.current_thread() is main and not opened.is_set():
+            state["hits"] += 1
+            opened.set()
+            go.wait(guard)
+
+    def hooked_open(name, mode="r", *args, **kwargs):
+        fobj = real_open(name, mode, *args, **kwargs)
+        if "w" in str(mode):
+            hold()
+        return fobj
+
+    class OsProxy(object):
+        def __getattr__(self, name):
+            return getattr(os, name)
+
+        def replace(self, src, dst, **kwargs):
+            hold()
+            return os.replace(src, dst, **kwargs)
+
+    def second():
+        if not opened.wait(guard) or state.get("abandon"):
+            return
+        try:
+            before = set(threading.enumerate())
+            if case["second"] == "deferred":
+                handler.deferred_load(url)
+            elif case["second"] == "setter":
+                odml.Document().repository = url
+            elif case["second"] == "include":
+                handler.deferred_load(urls["b"])
+            else:
+                state["second"] = handler.load(url) is not None
+            for thread in threading.enumerate():
+                if thread not in before and thread is not threading.current_thread():
+                    thread.join(guard)
+                    if thread.is_alive():
+                        return
+            state["second_done"] = True
+        except Exception as exc:
+            state["second_error"] = fw.exc_name(exc)
+            state["second_done"] = True
+        finally:
+            go.set()
+
+    def issues(doc, refs):
+        val = validation.Validation(doc, validate=False, reset=True)
+        val.register_custom_handler("section", validation.section_repository_present)
+        val.register_custom_handler("property", validation.property_terminology_check)
+        val.run_validation()
+        return c08.issue_list(val.errors, refs)
+
+    obs = {}
+    doc = odml.Document(repository=url)          # constructor argument: nothing is fetched yet
+    sec = odml.Section(name="s", type="recording", parent=doc)
+    odml.Property(name="Duration", values=[1], parent=sec)
+    odml.Property(name="other", values=[1], parent=sec)
+    refs = index_tree(doc, "d", {})
+    helper = threading.Thread(target=second)
+    shadowed = []
+    try:
+        if case["stop"] == "created":
+            if "open" in vars(mod):
+                return {"skipped": "the module has an open of its own"}
+            mod.open = hooked_open
+            shadowed.append("open")
+        else:
+            if vars(mod).get("os") is not os:
+                return {"skipped": "the module does not use os"}
+            mod.os = OsProxy()
+            shadowed.append("os")
+        helper.start()
+        try:
+            if case["first"] == "load":
+                obs["first"] = handler.load(url) is not None
+            else:
+                obs["first_issues"] = issues(doc, refs)
+        except Exception as exc:
+            obs["first_raised"] = fw.exc_name(exc)
+    finally:
+        if "open" in shadowed:
+            del mod.open
+        if "os" in shadowed:
+            mod.os = os
+        state["abandon"] = True
+        opened.set()
+        go.set()
+        if helper.ident is not None:
+            helper.join(guard)
+    if not state["hits"]:
+        return {"skipped": "the writer was not seen at '%s'" % case["stop"]}
+    if not state["second_done"] or helper.is_alive():
+        return {"skipped": "the second load did not finish while the first was held"}
+    obs["second"] = state["second"]
+    if "second_error" in state:
+        obs["second_error"] = state["second_error"]
+    if case["handler"] == "terminology":
+        obs["table"] = handler.get(url) is not None
+        try:
+            obs["issues"] = issues(doc, refs)
+            obs["again"] = issues(doc, refs)
+        except Exception as exc:
+            obs["issues_raised"] = fw.exc_name(exc)
+        funcs = {"section": [validation.section_repository_present],
+                 "property": [validation.property_terminology_check]}
+        obs["expected"] = expected_issues(funcs, doc, refs)
+    else:
+        obs["table"] = handler.get(url) is not None
+        try:
+            handler.pop(url, None)
+            type(handler).loading.pop(url, None)
+        except Exception:
+            pass
+    return obs
+
+
 class Lib(object):
     """The library operations of a history that are not validations of the user (edits, object
     creation, loads, saves).  Refusals of the new macros are the business of other properties:
@@ -1175,6 +1394,7 @@ class Lib(object):
         self.writers = {}
         self.loaded = None       # the document of the last successful load step
         self.protected = set()   # id() of objects a Validation of the user is bound to
+        self.settle = None       # histories with nested terminology files: waits for the loader threads
 
     # -- helpers
     def fresh(self):
@@ -1238,7 +1458,7 @@ class Lib(object):
         if kind == "binary":
             return b"\xff\xfe\x00\x01 not a text \x80\x81"
         base = None
-        if kind == "doc" and not (fmt == "RDF" and has_include(self.doc)):
+        if kind == "doc" and not (fmt == "RDF" and not rdf_safe(self.doc)):
             base = self.doc
         if base is None:
             base = self.small("small" if kind == "small" else "issues")
@@ -1429,7 +1649,7 @@ class Lib(object):
         import odml
         what = self.doc if a["what"] == "doc" else self.small(a["what"])
         fmt = a["fmt"]
-        if fmt == "RDF" and has_include(what):
+        if fmt == "RDF" and not rdf_safe(what):
             fmt = "JSON"
         name = "save%d.%s" % (self.counter, fmt.lower())
         self.counter += 1
@@ -1446,7 +1666,7 @@ class Lib(object):
             self.writer(dict(a, fmt=fmt)).write_file(what, path)
 
     def m_toString(self, a, arg):
-        fmt = "JSON" if a["fmt"] == "RDF" and has_include(self.doc) else a["fmt"]
+        fmt = "JSON" if a["fmt"] == "RDF" and not rdf_safe(self.doc) else a["fmt"]
         self.writer(dict(a, fmt=fmt)).to_string(self.doc)
 
     def m_create(self, a, arg):
@@ -1602,6 +1822,8 @@ class Lib(object):
         from odml import validation
         other = self.doc.clone(keep_id=bool(arg % 2))
         other.repository = self.repo_choice(arg // 2)
+        if self.settle:
+            self.settle()
         if arg % 4 < 2:
             for sec in other.itersections(recursive=True):
                 sec.repository = None
@@ -1667,7 +1889,9 @@ def index_tree(root, prefix, refs):
     return refs
 
 
-def build_user_doc(spec, url):
+def build_user_doc(spec, url, pause=None):
+    """pause: called after every repository setter (histories with nested terminology files let the
+    loader thread the setter has started finish first, see settle)."""
     import odml
     if spec.get("repo") is not None and spec.get("via") == "ctor":
         doc = odml.Document(repository=url(spec["repo"]))
@@ -1675,6 +1899,8 @@ def build_user_doc(spec, url):
         doc = odml.Document()
         if spec.get("repo") is not None:
             doc.repository = url(spec["repo"])
+            if pause:
+                pause()
 
     def mk(ss, parent):
         kw = {}
@@ -1683,6 +1909,8 @@ def build_user_doc(spec, url):
         sec = odml.Section(name=ss["name"], type=ss["type"], parent=parent, **kw)
         if ss.get("repo") is not None and spec.get("sec_via") == "setter":
             sec.repository = url(ss["repo"])
+            if pause:
+                pause()
         for ps in ss.get("props", []):
             kw = {}
             if ps.get("dtype"):
@@ -1708,12 +1936,16 @@ def exec_terms(case, tmp, saved, validate=True, reverse=False):
     import odml
     from odml.validation import Validation
     from odml.tools.odmlparser import ODMLWriter, ODMLReader
+    import threading
+    base_threads = set(threading.enumerate())
+    nested = nested_terms(case["terms"])
     pristine = registry_names()
     urls = register_terms(case["terms"], case["token"], tmp)
 
     def url(key):
         return urls.get(key, key)
-    docs = [build_user_doc(d, url) for d in case["docs"]]
+    pause = (lambda: settle(base_threads)) if nested else None
+    docs = [build_user_doc(d, url, pause) for d in case["docs"]]
     start = registry_names()
     term_docs = []
     import odml.terminology as ot
@@ -1910,11 +2142,13 @@ def exec_terms(case, tmp, saved, validate=True, reverse=False):
                         text = ODMLWriter(a["fmt"]).to_string(docs[d])
                         docs[d] = ODMLReader(a["fmt"], show_warnings=False).from_string(text)
                     elif t == "newdoc":
-                        docs.append(build_user_doc(a["doc"], url))
+                        docs.append(build_user_doc(a["doc"], url, pause))
                 except Exception as exc:
                     obs["refused"] = fw.exc_name(exc)
         except Exception as exc:
             obs["raised"] = fw.exc_name(exc)
+        if nested:
+            settle(base_threads)
         obs["global"] = registry_names()
         steps.append(obs)
 
@@ -2092,6 +2326,8 @@ class C19(fw.Check):
                           "items": [gen_terms_case(rng, load=True) for _ in range(30 if quick else 150)]})
         for _ in range(100 if quick else 4000):
             cases.append(gen_loader_case(rng))
+        # ---- round 5 follow-up: two loads of one url on a forced schedule (16 deterministic cases)
+        cases.extend(gen_race_cases(rng))
         return cases
 
     # -- implementation ------------------------------------------------------
@@ -2110,6 +2346,8 @@ class C19(fw.Check):
                 return exec_terms(case, tmp, saved)
             if st == "loader":
                 return self.run_loader(case, tmp)
+            if st == "race":
+                return run_race(case, tmp)
             if st == "termsx":
                 return self.run_termsx(case)
             return self.run_xproc(case)
@@ -2157,9 +2395,15 @@ class C19(fw.Check):
         pristine = registry_names()
         inc_url = self.include_file(tmp) if any(ln.get("include") for ln in case["doc"].get("links", [])) \
             else "file:///nonexistent/c19inc.xml"
+        import threading
+        base_threads = set(threading.enumerate())
+        nested = nested_terms(case["doc"].get("terms"))
         doc, _bt = build_doc(case["doc"], inc_url, tmp)
+        if nested:
+            settle(base_threads)
         start = registry_names()
         lib = Lib(doc, tmp, inc_url, strict=case["stream"] == "history")
+        lib.settle = (lambda: settle(base_threads)) if nested else None
         insts = {}
         targets = {}           # user handle -> the object its Validation is bound to
         handlers_of = {}       # user handle -> {klass: [functions]} registered through the API
@@ -2333,6 +2577,8 @@ class C19(fw.Check):
                             obs["loaded"] = got
             except Exception as exc:
                 obs["raised"] = fw.exc_name(exc)
+            if nested:
+                settle(base_threads)
             obs["global"] = registry_names()
             steps.append(obs)
         return {"pristine": pristine, "start": start, "steps": steps}
@@ -2699,6 +2945,25 @@ class C19(fw.Check):
                                           "loaded", step["loaded"])
         elif st == "terms":
             self.judge_terms(out, case, obs, "")
+        elif st == "race":
+            if "skipped" in obs:
+                return []
+            what = "%s, first %s stopped at '%s', second %s" % (case["handler"], case["first"], case["stop"],
+                                                                 case["second"])
+            if "first_raised" in obs or "second_error" in obs or "issues_raised" in obs:
+                out.append("%s: raised %s" % (what, obs.get("first_raised") or obs.get("second_error")
+                                              or obs.get("issues_raised")))
+            if obs.get("first") is False:
+                out.append("%s: the first load fetched and parsed the file but returned no Document" % what)
+            if obs.get("second") is False:
+                out.append("%s: the second load of the same url returned no Document" % what)
+            if obs.get("table") is False:
+                out.append("%s: the table of loaded files does not hold the Document" % what)
+            for key in ("first_issues", "issues", "again"):
+                if key in obs and obs[key] != obs.get("expected"):
+                    out.append("%s: the validation (%s) reports %s, a process in which the loads do not "
+                               "overlap reports %s" % (what, key, obs[key][:4], obs.get("expected", [])[:4]))
+                    break
         elif st == "loader":
             # the property restated without the model: whatever entered the loader in between, the same
             # file loads the same way and the same rule reports the same number of issues on an equal
@@ -2753,7 +3018,8 @@ class C19(fw.Check):
 
     def finding_key(self, case, obs, failure):
         # no open finding: terminology-cache-copy-in-locale-encoding was repaired by 0da7400, so a
-        # cross-process difference under the C locale is a violation again
+        # cross-process difference under the C locale is a violation again;
+        # terminology-cache-copy-read-while-written was repaired by 7dfcfe5 (race stream)
         return None
 
     def tag(self, case, obs):
@@ -2771,6 +3037,8 @@ class C19(fw.Check):
             return ("perm", bool(obs.get("default")))
         if st == "terms":
             return ("terms", any(s.get("issues") for s in obs.get("steps", [])))
+        if st == "race":
+            return ("race+skipped" if "skipped" in obs else "race", "skipped" not in obs)
         if st == "loader":
             return ("loader" if None not in obs.get("states", [None]) else "loader+oracle-only",
                     any(x != "good" for x in obs.get("states", [])))
